@@ -8,11 +8,11 @@ CONSTANTS
   Record = FALSE
   MCN = 3
   MaxLen = 2
-  Alphabet = "narrow"
-  Prefits = {"none", "fitbase"}
+  Alphabet = "tiny"
+  Prefits = {"none", "fit", "fitbase"}
   CfgSel = "all"
   Sample = 0
-  Depth = 3
+  Depth = 4
 CONSTRAINT Bound
 VIEW MCView
 INVARIANT TypeOK
@@ -24,7 +24,6 @@ INVARIANT NothingDroppedBase
 INVARIANT BaseIsCopy
 INVARIANT BrokenOnlyDirty
 INVARIANT KernelOnlySU
-INVARIANT PredictCovered
 PROPERTY BaseStable
 PROPERTY RefusalPure
 PROPERTY KernelMonotone
